@@ -1,7 +1,7 @@
 (* Executable checkers evaluated on the harness' case files:
    *_mismatches: model output <> implementation output (correspondence)
    *_spec_failures: specification oracle applied to the IMPLEMENTATION's outputs *)
-From IV Require Import Base.Word Base.F64 Model.Unwrapper Model.Ntp Proofs.UnwrapperProofs.
+From IV Require Import Base.Word Base.F64 Model.Unwrapper Model.Ntp Model.NtpLoc Proofs.UnwrapperProofs.
 From Coq Require Import ZifyBool.
 Ltac Zify.zify_post_hook ::= Z.div_mod_to_equations.
 
@@ -51,22 +51,31 @@ Definition unwrap_spec_ok (c : list Z * list Z) : bool := nearest_chainb None (f
 Definition unwrap_spec_failures (cases : list (list Z * list Z)) : list nat :=
   find_idx (fun c => negb (unwrap_spec_ok c)) cases 0.
 
-(* ---- NTP: case = (t1, t2, ref, ntp1, ntp2, ntp32, back, back32) ---- *)
-Definition ntp_case := (Z * Z * Z * Z * Z * Z * Z * Z)%type.
+(* ---- NTP: case = (t1, t2, ref, ntp1, ntp2, ntp32, back, back32, (o1, o2, oref, oalt), (ntpalt, ntp32alt, back32alt))
+   t1 t2 ref: instants in ns; o1 o2 oref: UTC offsets (s) of the Locations attached to the time.Time
+   values passed for t1, t2 and the ToTime32 reference; oalt: offset of a second, different Location in
+   which t1 and ref are passed once more (ntpalt = ToNTP(t1 in alt), ntp32alt = ToNTP32(t1 in alt),
+   back32alt = ToTime32(ntp32, ref in alt)).  The model reads the instant only, so the expected values
+   do not depend on the offsets (Proofs/NtpLocProofs.v). ---- *)
+Definition ntp_case := (Z * Z * Z * Z * Z * Z * Z * Z * (Z * Z * Z * Z) * (Z * Z * Z))%type.
 
 Definition ntp_model_ok (c : ntp_case) : bool :=
-  let '(t1, t2, ref, n1, n2, n32, back, back32) := c in
-  (ToNTP t1 =? n1) && (ToNTP t2 =? n2) && (ToNTP32 t1 =? n32) &&
-  (ToTime n1 =? back) && (ToTime32 n32 ref =? back32).
+  let '(t1, t2, ref, n1, n2, n32, back, back32, (o1, o2, oref, oalt), (nalt, n32alt, back32alt)) := c in
+  let a1 := mkTime t1 o1 in let a2 := mkTime t2 o2 in let r := mkTime ref oref in
+  let aalt := In a1 oalt in let ralt := In r oalt in
+  (ToNTP_t a1 =? n1) && (ToNTP_t a2 =? n2) && (ToNTP32_t a1 =? n32) &&
+  (instant (ToTime_t 0 n1) =? back) && (instant (ToTime32_t 0 n32 r) =? back32) &&
+  (ToNTP_t aalt =? nalt) && (ToNTP32_t aalt =? n32alt) && (instant (ToTime32_t 0 n32 ralt) =? back32alt).
 
 Definition ntp_mismatches (cases : list ntp_case) : list nat :=
   find_idx (fun c => negb (ntp_model_ok c)) cases 0.
 
 (* property text applied to the implementation's values: monotone, round trip
    within 1 us, 32-bit form within 2^-16 s (15259 ns) + 1 us when the reference
-   lies in the same 2^16 s window of the NTP clock *)
-Definition ntp_spec_ok (c : ntp_case) : bool :=
-  let '(t1, t2, ref, n1, n2, n32, back, back32) := c in
+   lies in the same 2^16 s window of the NTP clock.  t1, t2 and ref carry
+   arbitrary (generally different) Locations: the clauses are about instants. *)
+Definition ntp_base_ok (c : ntp_case) : bool :=
+  let '(t1, t2, ref, n1, n2, n32, back, back32, _, _) := c in
   (if t1 <=? t2 then n1 <=? n2 else n2 <=? n1) &&
   (Z.abs (back - t1) <=? 1000) &&
   (n32 =? (n1 / 65536) mod 4294967296) &&
@@ -74,7 +83,16 @@ Definition ntp_spec_ok (c : ntp_case) : bool :=
    if (w t1 =? w ref) && (w (t1 - 2000) =? w t1) && (w (t1 + 2000) =? w t1)
    then (-1000 <=? t1 - back32) && (t1 - back32 <=? 15259 + 1000) else true).
 
-(* failure codes: 9 = the instant (or its neighbour) lies in the last 383 ns before the end of
+(* "converting wall-clock time": the conversions are functions of the instant; the same instant
+   presented in another Location gives bit-identical results (implementation outputs only) *)
+Definition ntp_loc_ok (c : ntp_case) : bool :=
+  let '(_, _, _, n1, _, n32, _, back32, _, (nalt, n32alt, back32alt)) := c in
+  (nalt =? n1) && (n32alt =? n32) && (back32alt =? back32).
+
+Definition ntp_spec_ok (c : ntp_case) : bool := ntp_loc_ok c && ntp_base_ok c.
+
+(* failure codes: 2 = the result depends on the Location attached to the time.Time value;
+   9 = the instant (or its neighbour) lies in the last 383 ns before the end of
    NTP era 0 (2036-02-07 06:28:16 UTC), where float64 seconds round up to 2^32 and the 32-bit
    seconds field wraps (known finding); 1 = any other failure *)
 Definition ERA_END : Z := 2085978496000000000.
@@ -85,6 +103,7 @@ Definition ntp_spec_failures (cases : list ntp_case) : list (nat * nat) :=
     | [] => []
     | c :: tl =>
         if ntp_spec_ok c then go tl (S i)
-        else let '(t1, t2, _, _, _, _, _, _) := c in
-             (i, if (ERA_END - 383 <=? t1) || (ERA_END - 383 <=? t2) then 9%nat else 1%nat) :: go tl (S i)
+        else let '(t1, t2, _, _, _, _, _, _, _, _) := c in
+             (i, if negb (ntp_loc_ok c) then 2%nat
+                 else if (ERA_END - 383 <=? t1) || (ERA_END - 383 <=? t2) then 9%nat else 1%nat) :: go tl (S i)
     end in go cases 0%nat.
